@@ -468,6 +468,14 @@ example : Spec.WsFrame.decode [0x82, 0x83, 1, 2, 3, 4, 1, 3, 0xa9, 0x55] =
 /-- hypotheses are satisfiable: a key, an idle writer, lower layers that take everything / at most 7 bytes / fail -/
 example : ([1, 2, 3, 4] : Bytes).length = 4 ∧ ([0, 1, 0xaa] : Bytes).length < 2 ^ 63 := by decide
 example : Idle {} := ⟨rfl, rfl, Or.inl rfl⟩
+example : lwAll (frame .client [1, 2, 3, 4] [0, 1, 0xaa]).length = ((frame .client [1, 2, 3, 4] [0, 1, 0xaa]).length : Int) := rfl
+example : wsWrite {} [1, 2, 3, 4] [0, 1, 0xaa] lwAll =
+    (3, { maskKey := [1, 2, 3, 4], txHdr := [0x82, 0x83, 1, 2, 3, 4], txHdrOfs := 6, txDataOfs := 3 },
+     [0x82, 0x83, 1, 2, 3, 4, 1, 3, 0xa9]) := by decide
+/-- a session that is up and has not sent a Close (the defaults of `St`); Close, then a write: nothing, 0 -/
+example : ({} : St).up = true ∧ ({} : St).sentClose = false := ⟨rfl, rfl⟩
+example : (wsClose { role := .server, closeReason := 1002 } [] lwAll).2 = [0x88, 2, 3, 0xea] ∧
+    (wsWrite (wsClose { role := .server, closeReason := 1002 } [] lwAll).1 [] [0, 1] lwAll).1 = 0 := by decide
 example : Sane lwAll ∧ Sane (fun n => ((min n 7 : Nat) : Int)) ∧ Sane (fun _ => -1) :=
   ⟨sane_lwAll, fun _ => Int.ofNat_le.2 (Nat.min_le_left _ _), fun m => by show (-1 : Int) ≤ (m : Int); omega⟩
 example : Spec.WF .ws ⟨0, 1, 0, [], [], []⟩ ∧ (Spec.encode .ws ⟨0, 1, 0, [], [], []⟩).length ≤ maxFrame := by decide
